@@ -33,6 +33,73 @@ TEXT["C14"] = ("Theorems: >, <=, >= are defined from < as the property states; e
                "element < on the element-wise path. Transitivity of vector < on the element-wise path is FALSE for the code: the full "
                "statement is kept with a kernel-checked counter-witness (known finding; the repair is rejected by an existing test). "
                "Correspondence: all operators, operand kinds, triples for transitivity over a two-value domain.")
+TEXT["C01"] = ("Refinement theorems, unbounded in history length: for every well-formed parameter list (offset-table locator and stride "
+               "locator separately), every sequence of emplace_back / pop_back / erase(position) / erase(range) / clear / reserve that respects "
+               "the preconditions maps the canonical layout of the element sequence to the canonical layout of the sequence an ordinary list "
+               "holds after the same operations, so size(), empty(), capacity() and every field read through the locator agree; erase returns "
+               "the follower. PARTIAL: proved for value types on the memmove relocation path, and for all value types on histories whose "
+               "erases end at the end of the vector; the element-wise relocation of erase for non-trivial types is executed in the "
+               "correspondence run only (and is a known finding for overlapping moves). Correspondence: long random histories on every list "
+               "category x value-type category, every field of every element after every operation.")
+TEXT["C02"] = ("Theorem for lists without VaryingSize: stride = size rounded to the storage alignment is exact, so a block constructed for N "
+               "elements holds N strides and every element ends inside it, for all parameter lists, alignments and fixed sizes (induction "
+               "over the size fold). PARTIAL: sufficiency of the worst-case padding for lists with VaryingSize is not yet a theorem; it is "
+               "covered by the correspondence run (blocks filled to exactly N elements and B bytes in many residue patterns under a guard-zone "
+               "allocator and ASan, footprint against the model's formula).")
+TEXT["C06"] = ("Theorems over the live-record model of the block: after every history (memmove path; all value types when nothing is "
+               "relocated) the live records are exactly the logically held elements, pairwise disjoint, and no operation ever constructed "
+               "over a live record or relocated from a dead one (poison flag never raised); moved-from vectors hold nothing. The full "
+               "statement is FALSE on the element-wise erase path of the offset-table locator: kernel-checked counter-witness (known "
+               "finding). Correspondence: instrumented value type keyed by address (construct/destroy/assign/read callbacks, "
+               "address-dependent canary) over histories, assignments between unequal allocators and elements.")
+TEXT["C09"] = ("Theorems on the multi-vector model: copy construction/assignment give the target the source's size, fixed sizes, capacity "
+               "and field values and leave the source and all other vectors unchanged; move construction/assignment (stealing and "
+               "element-wise branch) give the target the source's former contents, the source is empty; swap exchanges contents; "
+               "self-assignment and self-swap change nothing; in-place operations on one vector never affect another. Correspondence: "
+               "assignment/swap/copy/move matrix over states (empty, zero-capacity, partly filled, full, moved-from) and allocator "
+               "relationships, both operands observed afterwards.")
+TEXT["C10"] = ("Theorems: reserve within capacity is the identity on the whole state; capacity afterwards is max(capacity, n); size, fixed "
+               "sizes and every element are unchanged at every fill level (both locators), also under repeated reserves. The room part "
+               "(n elements with b bytes fit) is C02. Correspondence: reserves at every fill level with shrinking and growing budgets "
+               "followed by fills to the new limits under the guard-zone allocator.")
+TEXT["C16"] = ("Theorems: emplace_back, pop_back, clear keep the offset of every stored element, erase keeps the offsets in front of the "
+               "erased position (both relocation paths), none of them changes the block, the table or the capacity or touches the allocator "
+               "ledger; reserve within capacity changes nothing; swap and move construction leave the ledger untouched and hand over the "
+               "block itself; capacity changes only by reserve beyond capacity. Correspondence: absolute addresses of all objects and "
+               "allocation counters before/after every operation.")
+TEXT["C18"] = ("Theorems for an arbitrary content of fresh bookkeeping memory (junk): fresh, zero-capacity, default-constructed and emptied "
+               "vectors show size 0, no elements, data_begin == data_end; clear / erase(begin,end) / reserve on them are defined and keep them "
+               "empty; observations of any history do not depend on the junk; afterwards the history theorems apply. PARTIAL where it rests "
+               "on C01's memmove-path restriction. Correspondence: histories starting from default-constructed and zero-capacity vectors "
+               "with allocator-controlled junk.")
+TEXT["C07"] = ("Theorems on the allocator ledger model: every allocation is recorded with allocator, size and kind; release returns exactly "
+               "what was allocated to the allocator it came from; reallocation and both pointer assignments keep the ledger well-formed; "
+               "destruction returns the data block. The no-leak statement is FALSE for the offset table of VaryingSize vectors: "
+               "kernel-checked counter-witness, partial theorem for the data block (known finding). Correspondence: ledger allocator "
+               "that checks allocator identity, size and alignment on every deallocate, over the assignment matrix and element operations.")
+TEXT["C08"] = ("Theorems: which allocator each vector holds after copy construction (select_on_container_copy_construction), copy/move "
+               "assignment and swap under every propagation trait combination, and that move assignment between unequal non-propagating "
+               "allocators allocates from the target's allocator. Correspondence: 10 trait combinations x operations, allocator ids observed.")
+TEXT["C11"] = ("Theorems: reference assignment copies/moves every field and leaves (copy) the source unchanged, swap exchanges and is an "
+               "involution, iterator arithmetic (+, -, difference, ordering, trichotomy) is that of indices; run tables cover every "
+               "parameter exactly once. Correspondence: reference and iterator operations on tracked and trivial types with canaries.")
+TEXT["C12"] = ("Theorems on the standalone element model: construction from a reference copies values and sizes, assignments with fixed and "
+               "varying sizes, move, swap, conversion back to a reference, independence from the source vector. Correspondence: element "
+               "stream (construct/assign/move/swap/compare, allocator propagation) under the ledger allocator and lifetime monitor.")
+TEXT["C15"] = ("Theorems: the memcpy shortcut is taken only when the conversion keeps the bytes (then the stored value is the converted "
+               "value), otherwise element-wise conversion; lvalue sources are not moved from, rvalue sources are. Correspondence: "
+               "emplace matrix (source category x value category x iterator kind) with move counters.")
+TEXT["C17"] = ("Theorems with the fault position universally quantified: a throwing allocation leaves the ledger unchanged; reallocate and "
+               "copy assignment give the strong guarantee on the owning pointer; block+table allocation returns the first block when the "
+               "second throws; construction, reserve and copy under fault leave all existing vectors unchanged. Correspondence: systematic "
+               "fault matrix (every allocation index of every operation) plus random faults, with liveness reads afterwards.")
+TEXT["C19"] = ("Theorems on the access model: const operations write nothing of the shared state, copying reads only, so any schedule of const "
+               "operations observes the same values. PARTIAL: memory-model behaviour of real threads cannot be exhibited by the model; "
+               "supported by executing every const operation with the vector, block and table mapped read-only (a write faults) and a "
+               "TSan run of 16 concurrent readers.")
+TEXT["C20"] = ("Theorems: the list categories partition all lists, constructor dispatch and operation availability are functions of the "
+               "category and value-type traits as documented. Correspondence: every cell of the category x value category x allocator matrix "
+               "is compiled (-fsyntax-only) and compared with the model's availability table.")
 NOTE = ("Trusted: Lean 4.33 kernel; axioms propext/Classical.choice/Quot.sound only (audited on every run); the correspondence "
         "harness, generator and runner; g++ 12.2 + ASan/UBSan. Modelled, not verified: allocator, value types, std algorithms, "
         "no size_t overflow, user preconditions (DESIGN.md §8).")
@@ -63,7 +130,7 @@ def main():
         "setup_cmd": "cd /verif && ./setup.sh",
         "hooks": {"guard": "CNTGS_VERIF_HOOKS", "enable": "harness translation units are compiled with -DCNTGS_VERIF_HOOKS against /repo/src",
                   "baseline_off_cmd": "cd /repo && cmake --build _build -j16 -- -k 0 ; ctest --test-dir /repo/_build -j8 --timeout 900",
-                  "source_commits": ["b2b3304"], "add_only": True},
+                  "source_commits": ["676cd59"], "add_only": True},
         "engines": [{"name": "lean-proof+correspondence", "path": "/verif/check", "serves_properties": claimed,
                      "kind_free_text": "Lean 4 model + theorems (lean/), C++ differential harness (harness/), generator/runner (tools/)"}],
         "checks": checks,
